@@ -110,6 +110,18 @@ def check(prop, tier):
                                           "shape": {}, "recorded": v["event"]}, behaviour=v["behaviour"]))
         else:
             member_note += "; NOT explained by Membership.tla at a %s step (outside C15, see ./check M01)" % v["event"].get("a")
+    # a well-formed Confirm / Reject that the ledger cannot serve right now (it first has to drop an invalid tentative
+    # tip) ends in an error: like every refused request it must leave the awaiting cache as it was (Notary.tla, KeepRule)
+    import notarychk
+    bviol, _, _ = notarychk.drive_validate(os.path.join(wd, "badtip"), drivebin,
+                                           [{"id": "C15-badtip-%d" % i, "ops": ops} for i, ops in enumerate(notarychk.directed_badtip())], [])
+    for v in bviol:
+        op = v["event"].get("op", {})
+        if v["event"].get("res") not in (None, "ok") and op.get("op") in ("confirm", "reject"):
+            violations.append(dict(what="C15_RejectedLeavesStateUnchanged (notary, %s)" % v["what"],
+                                   event={"rpc": "notary." + op["op"].capitalize(), "msg": "Transaction", "must": False, "shape": {},
+                                          "outcome": "error", "detail": "awaiting after the failed call: %s" % v["event"].get("awaiting"),
+                                          "recorded": v["event"]}, behaviour=v["behaviour"]))
     crashed, detail = memberchk.stress(tier, os.path.join(wd, "member-stress"), drivebin)
     if crashed:
         violations.append(dict(what="C15_NoCrash", event={"rpc": "gossip.Discover+Announce", "msg": "ConnectionData", "must": False, "shape": {},
@@ -152,6 +164,15 @@ def replay(prop, path):
     wd = rundir("%s-replay" % prop)
     drivebin = build_harness(into=wd)
     e = v["event"]
+    if "recorded" in e and e["rpc"].startswith("notary."):
+        import notarychk
+        bviol, _, _ = notarychk.drive_validate(os.path.join(wd, "badtip"), drivebin, [v.get("behaviour") or {"id": "replay", "ops": []}], [])
+        if bviol:
+            print("VIOLATION property=%s replay=%s" % (prop, path), flush=True)
+            log("  " + json.dumps(bviol[0]["event"])[:300])
+            return 1
+        log("replay: the notary behaviour is explained by Notary.tla")
+        return 0
     if "recorded" in e:
         # a step of the discovery protocol: run the behaviour it came from again, TLC judges the new recording
         import memberchk
